@@ -652,7 +652,7 @@ fn string_ranges(cx: &mut Ctx, g: &Grammar) {
     match s.method("StringParser", "new") {
         Some(m) => {
             let t = sm::tsx(&m.block);
-            if t.contains("start,end,location:start+offset") {
+            if t.contains("end,kind,location:start+offset,start,") {
                 cx.ok("C02.R5", "StringParser::new stores start, end and location = start + offset");
             } else {
                 cx.fail("C02.R5", "C02.R5/StringParser::new", &s.loc(m), "StringParser::new does not store { start, end, location: start + offset }");
